@@ -38,6 +38,10 @@ CHECKS = {
          "Generated operand triples (all 343 edge combinations + thousands of random ones) are pushed through every base-field gadget on an adversarial evaluation engine under two range-check flavours and compared with independent uint64 Goldilocks arithmetic; reduce inputs are drawn on both sides of the 2^b*p limit. Exploration, not proof: it shows agreement on everything generated.",
          "Trusts the engine's frontend.API semantics (cross-validated against gnark's test engine and compiled R1CS/SCS in C06) and ref's 60-line field arithmetic (validated by real-proof acceptance).",
          "DESIGN.md section 4 (C07)"),
+ "C20": ("generated shape mutation of accepted instances (reflect-enumerated list kinds x 5 operations) and reference-labelled configuration edits against a never-accept oracle",
+         "Every list kind of the proof structure (30 kinds; first/middle/last round) is altered by drop-first/drop-last/duplicate-last/append-zero/empty in template and assignment alike, and FRI configuration constants are edited coherently against the unchanged proof; the whole verifier must REFUSE or REJECT, never ACCEPT.",
+         "Single-copy edits of configuration fields the verifier reads from one copy, and proof-of-work bits, are not shape changes and are not generated.",
+         "DESIGN.md section 4 (C20)"),
 }
 NOT_YET = "check not built yet in this session (planned in DESIGN.md section 4); will be claimed once its check runs green on the unchanged tree"
 
